@@ -102,6 +102,15 @@ def gen_cases(ctx):
     for _ in range(10):
         cases.append(f"S{r.below(511)} T{r.range(1, 60)} R T60 R R T30")
     ctx.count("special", 14)
+    # a reset while part-way to lock (sync_count = k - 9 in 1..17), then a new sequence: nothing of the partial run may survive
+    for _ in range(1500 if thorough else 120):
+        k = r.range(10, 26)
+        cases.append(f"S{r.below(511)} T{k} R S{r.below(511)} T150")
+        ctx.count("reset-during-acquisition")
+    for _ in range(300 if thorough else 40):                 # ... and a reset during the re-acquisition after an unlock
+        burst = r.range(25, 40)
+        cases.append(f"S{r.below(511)} T{40 + burst}:{','.join(str(40 + i) for i in range(burst))} T{r.range(10, 26)} R S{r.below(511)} T150")
+        ctx.count("reset-during-reacquisition")
     # sync_count >= 10 on another phase, then a phase jump (the history for which c18_lock_within_27 does not hold)
     for _ in range(1500 if thorough else 40):
         k = r.range(19, 26)            # 9 bits fill the register, k - 9 >= 10 matches
@@ -126,6 +135,8 @@ class Oracle:
         self.exp_e = self.exp_b = 0
         self.failed = False
         self.fed = 0
+        self.fresh = True         # constructed or reset(), and fed nothing but uninverted, phase-continuous generator bits since
+        self.fresh_clean = 0
 
     def fail(self, key, text, **kw):
         if not self.failed:
@@ -140,6 +151,9 @@ class Oracle:
 
     def reset(self):
         self.synced = False
+        self.fresh = True
+        self.fresh_clean = 0
+        self.clean = 0
         self.prev_e = self.prev_b = 0
         self.deadline = None
         self.deadline2 = None
@@ -152,8 +166,19 @@ class Oracle:
         was_synced = self.synced
         if from_gen and not flipped:
             self.clean += 1
+            self.fresh_clean += 1
         else:
             self.clean = 0
+            self.fresh = False
+        if self.fresh and self.fresh_clean != self.clean:      # a phase jump since construction / reset()
+            self.fresh = False
+        if self.fresh and not was_synced and syn and self.clean < LOCK_RUN:
+            self.fail("prbs-lock-before-18-bits", "a new or reset validator fed only error-free bits of one phase raised sync after fewer "
+                      "than 18 bits: the lock run must consist of bits received since construction / reset()",
+                      bits_since_reset=self.clean, observed=dict(sync=syn, errors=e, bits=b))
+        if self.fresh and e != 0:
+            self.fail("prbs-errors-on-clean-stream", "a new or reset validator fed only error-free bits of one phase reports errors",
+                      bits_since_reset=self.clean, observed=dict(sync=syn, errors=e, bits=b))
         if not (from_gen and not flipped):
             self.deadline2 = None
         elif self.deadline2 is None and not was_synced and remaining_clean >= TRUE_LOCK_BOUND:
